@@ -13,11 +13,12 @@ Fixpoint expr_values (e : expr Q) : list value :=
   | ENot x => expr_values x
   | EFunc _ args => flat_map (fun a : bool * expr Q => expr_values (snd a)) args
   | EBinary l op r =>
-      match op, r with
-      | BIn, ETuple [] => [int_value 1; int_value 2]       (* `x IN ()` is rendered as 1 = 2 *)
-      | BNotIn, ETuple [] => [int_value 1; int_value 1]    (* `x NOT IN ()` as 1 = 1 *)
-      | _, _ => expr_values l ++ expr_values r
-      end
+      if is_empty_in Q op r then
+        match op with
+        | BIn => [int_value 1; int_value 2]       (* `x IN ()` is rendered as 1 = 2 *)
+        | _ => [int_value 1; int_value 1]         (* `x NOT IN ()` as 1 = 1 *)
+        end
+      else expr_values l ++ expr_values r
   | ESubQuery _ q => qvals q
   | EValue v => [v]
   | EValues vs => vs
